@@ -88,12 +88,14 @@ fn main() {
         let idx_ok = sql::exec(&mut dbi, &idx_sql).is_ok();
         sum.count(if idx_ok { "index:created" } else { "index:create-failed" });
         let mut cases = Vec::new();
-        for _ in 0..per_db {
+        for case_no in 0..per_db {
             // base query over table 0 (so that the index can matter), sometimes joined with another table
-            let grouped = r.chance(1, 4);
+            // the first two cases of every database are the plain index-aligned shape (see below)
+            let forced = case_no < 2;
+            let grouped = !forced && r.chance(1, 4);
             let mut from = vec![From::Table(0, t0.cols.len())];
             let mut tys = t0.cols.clone();
-            if r.chance(1, 5) {
+            if !forced && r.chance(1, 5) {
                 let t = r.below(dbdef.tables.len() as u64) as usize;
                 tys.extend(dbdef.tables[t].cols.clone());
                 from.push(From::Table(t, dbdef.tables[t].cols.len()));
@@ -134,8 +136,33 @@ fn main() {
                 let j = i + r.below((pos.len() - i) as u64) as usize;
                 pos.swap(i, j);
             }
-            let order: Vec<(usize, bool)> = pos[..nk].iter().map(|p| (*p, r.chance(2, 5))).collect();
-            let style = if grouped { *r.pick(&[0u8, 0, 2]) } else { r.below(3) as u8 };
+            let mut order: Vec<(usize, bool)> = pos[..nk].iter().map(|p| (*p, r.chance(2, 5))).collect();
+            let mut style = if grouped { *r.pick(&[0u8, 0, 2]) } else { r.below(3) as u8 };
+            // index-aligned shape (one case in three on plain queries): all columns of tab0 projected as they
+            // are, ORDER BY exactly a prefix of the index columns in index order with one common direction,
+            // WHERE (if any) on the leading index column: this is the shape for which the index scan may
+            // claim that its order is the ORDER BY order
+            let mut ptys = ptys;
+            let mut aligned = false;
+            if !grouped && sel.from.len() == 1 && (forced || r.chance(1, 3)) {
+                sel.proj = (0..t0.cols.len()).map(|i| Expr::Col(0, i)).collect();
+                ptys = t0.cols.clone();
+                let nk2 = if forced { ncols } else { 1 + r.below(ncols as u64) as usize };
+                let desc = if case_no == 0 { idx_desc } else { r.chance(1, 3) };
+                order = cols[..nk2].iter().map(|c| (*c, desc)).collect();
+                style = r.below(3) as u8;
+                sel.where_ = if case_no != 0 && r.chance(1, 2) {
+                    let lead = cols[0];
+                    let k = Expr::Const(gen_val(&mut r, t0.cols[lead], 0));
+                    let op = *r.pick(&[BinOp::Le, BinOp::Ge, BinOp::Lt, BinOp::Gt, BinOp::Eq]);
+                    Some(Expr::Bin(op, Box::new(Expr::Col(0, lead)), Box::new(k)))
+                } else {
+                    None
+                };
+                sum.count("shape:index-aligned");
+                aligned = true;
+            }
+            let _ = &ptys;
             let unordered = Query::Select(sel.clone());
             let mut full = sel.clone();
             full.order = order.clone();
@@ -159,12 +186,45 @@ fn main() {
             }
             let mut dis = full.clone();
             dis.distinct = true;
-            let queries: Vec<(&str, Query, String)> = vec![
+            // half of the index-aligned cases are written the plain way (no table alias, bare column names):
+            // some planner shortcuts only recognise that form
+            let bare = aligned && (forced || r.chance(1, 2));
+            let bare_sql = |s: &Select| -> String {
+                let names: Vec<String> = (0..t0.cols.len()).map(|i| format!("c{}", i)).collect();
+                let mut p = SqlPrinter::new();
+                let mut t = format!("SELECT {}{} FROM tab0", if s.distinct { "DISTINCT " } else { "" }, names.join(", "));
+                if let Some(w) = &s.where_ {
+                    t.push_str(&format!(" WHERE {}", p.expr(w, &[names.clone()])));
+                }
+                if !s.order.is_empty() {
+                    t.push_str(&format!(" ORDER BY {}", s.order.iter().map(|(c, d)| format!("c{}{}", c, if *d { " DESC" } else { "" })).collect::<Vec<_>>().join(", ")));
+                }
+                if let Some(n) = s.limit {
+                    t.push_str(&format!(" LIMIT {}", n));
+                }
+                if let Some(m) = s.offset {
+                    t.push_str(&format!(" OFFSET {}", m));
+                }
+                t
+            };
+            if bare {
+                sum.count("shape:index-aligned-bare-names");
+            }
+            let queries: Vec<(&str, Query, String)> = if bare {
+                vec![
+                    ("unordered", unordered.clone(), bare_sql(&sel)),
+                    ("ordered", full_q.clone(), bare_sql(&full)),
+                    ("limited", Query::Select(lim.clone()), bare_sql(&lim)),
+                    ("distinct", Query::Select(dis.clone()), bare_sql(&dis)),
+                ]
+            } else {
+                vec![
                 ("unordered", unordered.clone(), to_sql(&unordered)),
                 ("ordered", full_q.clone(), full_sql.clone()),
                 ("limited", Query::Select(lim.clone()), to_sql_styled(&Query::Select(lim.clone()), style)),
                 ("distinct", Query::Select(dis.clone()), to_sql_styled(&Query::Select(dis.clone()), if grouped { 0 } else { style })),
-            ];
+                ]
+            };
             let case_base = id;
             id += 8;
             if let Some(only) = &args.only {
